@@ -18,6 +18,8 @@ type e3Job struct {
 	Params   json.RawMessage `json:"params"`
 	Bound    int             `json:"bound"`            // preemption bound, -1 = unbounded
 	Replay   []int           `json:"replay,omitempty"` // run exactly this schedule instead of exploring
+	Shard    int             `json:"shard,omitempty"`  // this worker explores the level-1 subtrees i with i % NShards == Shard
+	NShards  int             `json:"nshards,omitempty"`
 	IsReplay bool            `json:"is_replay,omitempty"`
 }
 
@@ -43,7 +45,7 @@ func raceLogPath() string {
 
 // e3Explore runs one scenario in this (worker) process and converts the outcome.
 func e3Explore(ctx *rt.Ctx, prop string, j e3Job, sc vsched.Scenario, outcome func() string) []*rt.Violation {
-	ex := &vsched.Explorer{Scenario: sc, Bound: j.Bound, RaceLogPath: raceLogPath(), Outcome: outcome, Deadline: ctx.Deadline.Add(-5 * time.Second)}
+	ex := &vsched.Explorer{Scenario: sc, Bound: j.Bound, RaceLogPath: raceLogPath(), Outcome: outcome, Deadline: ctx.Deadline.Add(-5 * time.Second), Shard: j.Shard, NShards: j.NShards}
 	var st vsched.Stats
 	if j.IsReplay {
 		st = ex.ReplayOne(j.Replay)
